@@ -1,18 +1,9 @@
 (* C16Proofs.v — lemmas behind props/C16.v *)
 From Coq Require Import String Ascii.
-From SV Require Import Base Json MD5 Canon Export CorrC16.
+From SV Require Import Base Json MD5 Canon Export CorrC16 C16Frame C16Schema C16Analyse.
 Local Open Scope N_scope.
 
 (* ================================================================== small list facts *)
-Lemma fpath_eqb_eq : forall a b, fpath_eqb a b = true <-> a = b.
-Proof. apply list_eqb_eq. apply str_eqb_eq. Qed.
-
-Lemma strip_prefix_refl : forall l, strip_prefix l l = Some [].
-Proof. induction l as [|x l IH]; simpl; auto. rewrite str_eqb_refl. exact IH. Qed.
-
-Lemma is_prefix_refl : forall l, is_prefix l l = true.
-Proof. intro l. unfold is_prefix. rewrite strip_prefix_refl. reflexivity. Qed.
-
 Lemma forallb_map : forall A B (f : A -> B) (p : B -> bool) l,
   forallb p (List.map f l) = forallb (fun a => p (f a)) l.
 Proof. induction l as [|x l IH]; simpl; auto. rewrite IH. reflexivity. Qed.
@@ -216,4 +207,43 @@ Lemma f19_witness :
   let e := export_model (orc js) js KDir PNone in
   eo_exn e = None /\ eo_map e = [q "../zz"; q "a/2"]
   /\ match eo_art e with ADir f => fs_isdir [q "t"; q "e"; q "zz"] f | _ => false end = true.
+Proof. vm_compute. repeat split. Qed.
+
+(* ================================================================== non-vacuity of the hypotheses *)
+Lemma dst_safe_examples :
+  dst_safe (q "a/1") = true /\ dst_safe (q "k/p/a/x y") = true /\ dst_safe (q "../zz") = false /\ dst_safe (q "a/../..") = false.
+Proof. vm_compute. repeat split. Qed.
+
+Definition ex_items : list item :=
+  [ {| it_lit := q "a/"; it_key := q "a"; it_ty := TyInt; it_val := JInt (-10); it_text := q "-10" |};
+    {| it_lit := q "/b/"; it_key := q "b"; it_ty := TyStr; it_val := JStr (q "x_1"); it_text := q "x_1" |};
+    {| it_lit := q "/c/"; it_key := q "c"; it_ty := TyBool; it_val := JBool true; it_text := q "True" |} ].
+
+Lemma ex_items_ok : items_ok (orc []) true ex_items.
+Proof.
+  unfold ex_items. constructor; [apply (vt_int _ (-10)%Z)|left; reflexivity|].
+  constructor; [apply vt_str; [discriminate|reflexivity]|right; eexists; reflexivity|].
+  constructor; [apply (vt_bool _ true)|right; eexists; reflexivity|]. constructor.
+Qed.
+
+Lemma schema_example :
+  schema_text ex_items = q "a/{a:int}/b/{b:str}/c/{c:bool}"
+  /\ schema_compile (q "a/{a:int}/b/{b:str}/c/{c:bool}") = ROk (fields_of ex_items)
+  /\ parse_path (fields_of ex_items) (q "a/-10/b/x_1/c/True") = ROk (Some (sp_of ex_items))
+  /\ parse_path (fields_of ex_items) (q "a/-10/b/x 1/c/True") = ROk None.
+Proof. vm_compute. repeat split. Qed.
+
+Definition ex_roots : list (str * json) := [(q "a/1", j_sp j_a1); (q "a/2", j_sp j_a2)].
+Lemma mapping_example :
+  let o := orc [j_a1; j_a2] in
+  let e := export_model o [j_a1; j_a2] KZip PNone in
+  match eo_art e with
+  | AZip ms =>
+      let names := ssort true (sdedup (List.map dirname (List.map fst ms))) in
+      names = [q "a/1"; q "a/2"]
+      /\ analyse o (arch_schema_fn o SchNone (zip_read_sp o ms)) (fun name skip => existsb (zip_under name) skip) false names (dst_init [])
+         = ROk (expected_maps o ex_roots names)
+      /\ fs_eqb (io_dst (import_model o SchNone (eo_art e) (dst_init []))) (expected_dst [] [j_a1; j_a2]) = true
+  | _ => False
+  end.
 Proof. vm_compute. repeat split. Qed.
